@@ -411,6 +411,51 @@ def lastOf (prev : List Vec) : List (List Vec) → List Vec
   | [] => prev
   | cur :: rest => lastOf cur rest
 
+/-! ## Witness: the per-action agenda loop of `Witness::operator()` (LP `findWitness` = oracle parameter) -/
+
+/-- a VEntry's `observations`: for each observation the index of the chosen projection -/
+abbrev Choice := List Nat
+
+/-- the projection chosen for observation `o` -/
+def choiceVecAt (n : Nat) (P : Nat → List Vec) (c : Choice) : Nat → Vec := fun o => (P o).getD (c.getD o 0) (vzero n)
+
+/-- the VEntry's values: Σ_o projs[o][c[o]] -/
+def choiceSum (n k : Nat) (P : Nat → List Vec) (c : Choice) : Vec := sumVecTo n k (choiceVecAt n P c)
+
+/-- every `vObs` that `addVariations(projs, variated)` visits: for each o, every i ≠ variated.observations[o] -/
+def allVars (k : Nat) (P : Nat → List Vec) (c : Choice) : List Choice :=
+  (List.range k).flatMap (fun o => ((List.range (P o).length).filter (fun i => i != c.getD o 0)).map (fun i => c.set o i))
+
+/-- the body of `addVariations`: skip what is in `triedVectors_`, otherwise record it and push it on the agenda -/
+def addVars (vs : List Choice) (ag tr : List Choice) : List Choice × List Choice :=
+  vs.foldl (fun p v => if v ∈ p.2 then p else (v :: p.1, v :: p.2)) (ag, tr)
+
+/-- U[a] (as choices), `agenda_` (head = `back()`), `triedVectors_` -/
+structure WState where
+  U : List Choice
+  agenda : List Choice
+  tried : List Choice
+
+/-- one iteration of `while ( !agenda_.empty() )`: `findWitness(agenda_.back())`; a witness point `w` yields
+    `crossSumBestAtBelief(w, projections[a], a)` (here `best w`), which joins U and whose variations join the agenda (the examined
+    entry stays); no witness pops the entry -/
+def wStep (n k : Nat) (P : Nat → List Vec) (oracle : List Vec → Vec → Option Vec) (best : Vec → Choice) (st : WState) : WState :=
+  match st.agenda with
+  | [] => st
+  | v :: rest =>
+    match oracle (st.U.map (choiceSum n k P)) (choiceSum n k P v) with
+    | some w =>
+      let r := addVars (allVars k P (best w)) (v :: rest) st.tried
+      ⟨st.U ++ [best w], r.1, r.2⟩
+    | none => ⟨st.U, rest, st.tried⟩
+
+def wLoop (n k : Nat) (P : Nat → List Vec) (oracle : List Vec → Vec → Option Vec) (best : Vec → Choice) : Nat → WState → WState
+  | 0, st => st
+  | f+1, st => wLoop n k P oracle best f (wStep n k P oracle best st)
+
+/-- `addDefaultEntry`: the all-zero choice is tried and is the only agenda entry; U is empty -/
+def wInit (k : Nat) : WState := ⟨[], [List.replicate k 0], [List.replicate k 0]⟩
+
 /-! ## round 2 -/
 
 /-- the per-action merge of `IncrementalPruning::operator()` run on C04's literal copy of the schedule
